@@ -301,7 +301,14 @@ func genC14(t *core.Tape, tier string) *Scenario {
 		p.LiveCtx = true
 		sc.Notes["cancellable_context_outlives_call"]++
 	}
-	if !byCancel && !p.InterceptorErr && !p.protoRefused && t.Bool(1, 10, "do.fails") {
+	if !byCancel && !p.InterceptorErr && !p.protoRefused && t.Bool(1, 16, "odd.url") {
+		// a base URL that the library's own check accepts and net/http's request
+		// constructor refuses: no request can be built, let alone sent - every
+		// operation must still return, with a coded error
+		sc.Clients[0].OddURL = true
+		p.doFails = true
+		sc.Notes["unbuildable_request_url"]++
+	} else if !byCancel && !p.InterceptorErr && !p.protoRefused && t.Bool(1, 10, "do.fails") {
 		// nothing answers at that address: Do fails, there is no response - and
 		// still nothing may be left behind
 		p.K.DoErr = errors.New("dial tcp 10.0.0.9:443: connect: connection refused")
